@@ -57,3 +57,14 @@ Theorem C17_reduce_one_requirement_per_project :
   forall r, In r rs -> exists m, In (norm (safe_name (rname r)), m) acc /\ stronger m r.
 Proof. exact reduce_one_per_project. Qed.
 Print Assumptions C17_reduce_one_requirement_per_project.
+
+(* Project-name equivalence against its specification (the chain is read from utils.normalize_project_name on every
+   run): letter case and the separators '-', '_', '.' do not distinguish projects - norm distributes over
+   concatenation and gives the three separators, and both cases of every letter, one image. *)
+From RC Require Import proofs.NameSpecP.
+Theorem C17_names_differing_in_separators_or_case_are_one_project :
+  (forall pre post s1 s2, In s1 ["-"%string; "_"%string; "."%string] -> In s2 ["-"%string; "_"%string; "."%string] ->
+     norm (pre ++ s1 ++ post) = norm (pre ++ s2 ++ post)) /\
+  norm "ABCDEFGHIJKLMNOPQRSTUVWXYZ" = norm "abcdefghijklmnopqrstuvwxyz".
+Proof. split; [exact norm_respelled_separator|exact (proj2 (proj2 norm_separators_and_case))]. Qed.
+Print Assumptions C17_names_differing_in_separators_or_case_are_one_project.
